@@ -382,3 +382,163 @@ Example C14_example_complete_image_run :
      ([[27; 28]], image_reloc P (spots 40 40 [(34, 21, 100); (27, 28, 100)]) t)]
   = Ok [([0; 1]%nat, [[32; 20]; [26; 27]]); ([0; 1]%nat, [[33; 20]; [26; 28]]); ([1; 0]%nat, [[27; 28]; [34; 21]])].
 Proof. exact complete_image_example_run. Qed.
+
+(* ================================================================ ROUTE T
+   (14)-(19): the relocation of lost features, for the code GENERATED from the current text
+   of trackpy/linking/find_link.py (Gen/findlink.v, by tools/py2coq_findlink.py; vocabulary
+   Model/PyFindlink.v; proofs Proofs/FindlinkGen.v):
+
+     py_percentile_threshold      FindLinker.percentile_threshold (the per-frame threshold cache)
+     py_get_relocate_candidates   FindLinker.get_relocate_candidates (slice, mask of the search
+                                  region, mask of the already found features, threshold, box maxima,
+                                  edge rejection, search-range filter, separation filter, mass,
+                                  minmass selection, every early return)
+     py_relocate                  FindLinker.relocate
+
+   They are proved EQUAL, for all inputs, to the hand-written model the theorems above are
+   stated about (relocate_cands / relocate / image_reloc with fixed = true), and (2), (4), (5),
+   (6) are restated for them.  A returned pair (coordinates, extra_data) is read as the list of
+   (coordinate, mass) pairs [cands_of]; a FindLinker object is the record [flinker]
+   (parameters fl_P, frame image, frame number, the points self.hash holds = fl_known, the
+   threshold cache, the percentile); np.percentile is the parameter [npp].
+
+   NOT translated (what is missing for a route T of the whole of FindLinker): FindLinker.__init__
+   (the derived radii: (3) stays a theorem about Model.FindLink.mk_params), assign_links /
+   next_level and Subnets.include_lost / merge_lost_subnets / add_dest_points -- the subnet
+   dictionary with its point attributes against the model's list of groups (find_groups /
+   group_step) is an abstraction modulo dict order, not an equality; note also that the model
+   keeps every relocated point within range in the frame whereas assign_links keeps only the
+   CLAIMED ones (a superset: the safety theorems (1), (6) cover the code's frame).  The tie of
+   that part stays the monitor (7) and the correspondence runs of vp/props/c14.py. *)
+From TP Require Import Model.PyFind Model.PyFindlink Gen.findlink Proofs.FindlinkGen.
+
+(* (14) the threshold cache: the generated percentile_threshold returns the threshold of the
+   frame -- the cached one when the cache was filled for this frame number, else
+   np.percentile of the non-black pixels (None on a black frame), which it then caches;
+   after any call the cache holds for this frame and returns the same value. *)
+Theorem C14_gen_threshold_cache :
+  forall npp self,
+    py_percentile_threshold npp self (fl_percentile self) = (thr_of npp self, after_thr npp self) /\
+    (cached self = false -> thr_of npp self = fresh_thr npp self) /\
+    cached (after_thr npp self) = true /\ thr_of npp (after_thr npp self) = thr_of npp self.
+Proof.
+  exact (fun npp self => conj (py_percentile_threshold_eq npp self)
+          (conj (threshold_recomputed npp self)
+             (conj (proj1 (threshold_cached_after npp self)) (proj1 (proj2 (threshold_cached_after npp self)))))).
+Qed.
+Print Assumptions C14_gen_threshold_cache.
+
+Theorem C14_gen_threshold_unfolded :
+  forall npp self,
+    (cached self = optZ_eq (Some (fl_curr_t self)) (fst (fl_threshold self))) /\
+    (thr_of npp self = if cached self then snd (fl_threshold self) else fresh_thr npp self) /\
+    (fresh_thr npp self = match not_black (fl_image self) with [] => None | l => Some (npp l (fl_percentile self)) end).
+Proof. exact (fun npp self => conj eq_refl (conj eq_refl eq_refl)). Qed.
+
+(* (15) the generated get_relocate_candidates IS the model's relocate_cands (code as it is
+   now), at the frame's threshold, searched around pos, against the points the hash holds;
+   the call changes nothing of the object but (possibly) the threshold cache. *)
+Theorem C14_gen_candidates_are_model :
+  forall npp self pos,
+    fixed (fl_P self) = true ->
+    cands_of (fst (py_get_relocate_candidates npp self pos))
+    = relocate_cands (fl_P self) (fl_image self) (thr_of npp self) pos (fl_known self).
+Proof. exact py_get_relocate_candidates_eq. Qed.
+Print Assumptions C14_gen_candidates_are_model.
+
+Theorem C14_gen_candidates_state :
+  forall npp self pos,
+    snd (py_get_relocate_candidates npp self pos) = self \/
+    snd (py_get_relocate_candidates npp self pos) = after_thr npp self.
+Proof. exact py_get_relocate_candidates_state. Qed.
+
+(* (16) generated relocate(pos, n) = the n best candidates = the relocation oracle image_reloc
+   of (5), (6), (9)-(13). *)
+Theorem C14_gen_relocate_is_oracle :
+  forall npp self pos n,
+    fixed (fl_P self) = true ->
+    fst (py_relocate npp self pos n)
+    = image_reloc (fl_P self) (fl_image self) (thr_of npp self) pos (fl_known self) n.
+Proof. exact py_relocate_image_reloc. Qed.
+Print Assumptions C14_gen_relocate_is_oracle.
+
+(* (17) = (2), (4) for the generated code: a candidate it returns is at least separation away
+   from every point the hash holds, within search_range of a searched position, outside the
+   margin with a finite mass of at least minmass, and two candidates are at least separation apart. *)
+Theorem C14_gen_candidates_admissible :
+  forall npp self pos,
+    fixed (fl_P self) = true ->
+    (forall t0, thr_of npp self = Some t0 -> (0 <= t0)%Q) ->
+    let P := fl_P self in
+    let out := cands_of (fst (py_get_relocate_candidates npp self pos)) in
+    (Forall (fun p => length p = length (shape (fl_image self))) pos ->
+     Forall (fun b => length b = length (shape (fl_image self))) (fl_known self) ->
+     bg_covers P ->
+     forall x b, In x out -> In b (fl_known self) -> far (fk P) (sepk P) (fst x) b) /\
+    (forall x, In x out -> exists p, In p pos /\ in_range (fmet P) p (fst x)) /\
+    (forall x, In x out -> off_margin (shape (fl_image self)) (rad P) (fst x) /\
+                           exists v, snd x = Some v /\ (minmass P <= inject_Z v)%Q) /\
+    (0 < fk P -> 0 < sepk P ->
+     NoDup (map fst out) /\
+     forall x y, In x out -> In y out -> fst x <> fst y -> far (fk P) (sepk P) (fst x) (fst y)).
+Proof.
+  exact (fun npp self pos Hfix Hthr =>
+    conj (gen_cand_far_from_known npp self pos Hfix Hthr)
+      (conj (gen_cand_in_range npp self pos Hfix Hthr)
+         (conj (gen_cand_margin_mass npp self pos Hfix Hthr) (gen_cand_pairwise npp self pos Hfix Hthr)))).
+Qed.
+Print Assumptions C14_gen_candidates_admissible.
+
+(* (18) = (5): the generated relocate of a frame (object with the frame's image, number and
+   cache; known = what self.hash holds at the call) is an admissible relocation oracle ... *)
+Theorem C14_gen_relocate_admissible :
+  forall npp P im curr_t cache perc,
+    bg_covers P -> fixed P = true ->
+    (forall t0, frame_thr npp im curr_t cache perc = Some t0 -> (0 <= t0)%Q) ->
+    rel_ok (gen_reloc npp P im curr_t cache perc) (length (shape im)) (fk P) (sepk P) (off_margin (shape im) (rad P)).
+Proof. exact gen_reloc_ok. Qed.
+Print Assumptions C14_gen_relocate_admissible.
+
+Theorem C14_gen_reloc_unfolded :
+  forall npp P im curr_t cache perc pos known n,
+    gen_reloc npp P im curr_t cache perc pos known n
+    = fst (py_relocate npp (mk_flinker P im curr_t known cache perc) pos n).
+Proof. exact (fun _ _ _ _ _ _ _ _ _ => eq_refl). Qed.
+
+(* (19) = (6): ... so the model of find_link run with the GENERATED relocate as every frame's
+   oracle (frames of one shape sh, separated detections, non-negative thresholds) has in every
+   output frame one label per feature, no label twice, features pairwise at least separation
+   apart, added features outside the margin and within search_range of a feature of a preceding
+   output frame. *)
+Theorem C14_gen_movie_safe :
+  forall npp P mem max_size sh f0 (frames : list gframe) out,
+    metric_ok (fmet P) -> 0 < sepk P -> bg_covers P -> fixed P = true ->
+    Forall (fun p => length p = length sh) f0 ->
+    Forall (gframe_ok npp P sh) frames ->
+    find_link_model (fmet P) mem max_size no_pred f0 (map (g_input npp P) frames) = Ok out ->
+    exists labs0 out', out = (labs0, f0) :: out' /\ length labs0 = length f0 /\ NoDup labs0 /\
+                       run_ok (fmet P) (fk P) (sepk P) (off_margin sh (rad P)) [f0] (map (g_input npp P) frames) out'.
+Proof. exact gen_movie_safe. Qed.
+Print Assumptions C14_gen_movie_safe.
+
+Theorem C14_gframe_unfolded :
+  forall npp P sh (fr : gframe),
+    (g_input npp P fr = (fst fr, gen_reloc npp P (g_im fr) (g_t fr) (g_cache fr) (g_perc fr))) /\
+    (gframe_ok npp P sh fr <->
+       (shape (g_im fr) = sh /\
+        (forall t0, frame_thr npp (g_im fr) (g_t fr) (g_cache fr) (g_perc fr) = Some t0 -> (0 <= t0)%Q) /\
+        separated (fk P) (sepk P) (fst fr) /\ Forall (fun p => length p = length sh) (fst fr))).
+Proof. exact (fun npp P sh fr => conj eq_refl (iff_refl _)). Qed.
+
+(* non-vacuity: on the example of (13b) the generated code, run inside Coq, re-finds the two
+   withheld features -- the threshold cache empty, np.percentile answering 50 *)
+Example C14_gen_example_refinds :
+  let P := mk_params 2 1 5 9 4 0 false true in
+  let im := spots 40 40 [(33, 20, 100); (26, 28, 100)] in
+  let self := mk_flinker P im 1 [] (None, None) (Qmake 64 1) in
+  fixed (fl_P self) = true /\
+  thr_of (fun _ _ => Qmake 50 1) self = Some (Qmake 50 1) /\
+  cands_of (fst (py_get_relocate_candidates (fun _ _ => Qmake 50 1) self [[32; 20]; [26; 27]]))
+  = [([33; 20], Some 100); ([26; 28], Some 100)] /\
+  fst (py_relocate (fun _ _ => Qmake 50 1) self [[32; 20]; [26; 27]] 2) = [[33; 20]; [26; 28]].
+Proof. vm_compute. repeat split; reflexivity. Qed.
